@@ -1,5 +1,6 @@
 /-
-Model of the path functions of `leptos_i18n_router/src/routing.rs` (as they are after the F17 repair).
+Model of the path functions of `leptos_i18n_router/src/routing.rs` (as they are after the F17 repair `decb932`
+and the repair `e02576e` of `match_path_segments`).
 
 Mirrors, function by function: `PathBuilder::{new,push,build}`, `split_first_segment`,
 `strip_base_path`, `get_locale_from_path`, `match_path_segments`, `construct_path_segments`,
@@ -121,23 +122,34 @@ abbrev Row := List PSeg
 /-- the generated routes of one locale (`Vec<Vec<PathSegment>>`) -/
 abbrev Tables := List Row
 
-/-- `match_path_segments(segments, old_segments)`; `i` is the `enumerate` index, `opts` the set so far -/
+/-- `match_path_segments(segments, old_segments)` = the inner `match_from(segments, route, index, &mut optionals)`
+    (after the repair `e02576e`: recursive, with backtracking over the optional parameters).
+    `i` is `index` (position of `route[0]` in the whole route), `opts` the set `optionals` so far; the result is
+    `some optionals` when `match_from` returns `true`.  When it returns `false` the Rust code has restored the set
+    (`optionals.remove(&index)` after a failed attempt), which is "continue with the old `opts`" here. -/
 def matchSegs : Row → List Str → Nat → List Nat → Option (List Nat)
-  | [], [], _, opts => some opts                   -- `segments_iter.next().is_none().then_some(..)`
-  | _ :: _, [], _, _ => none
-  | [], _ :: _, _, _ => none                       -- `segments_iter.next()?`
-  | p :: ps, seg :: rest, i, opts =>
+  | [], ss, _, opts => if ss.isEmpty then some opts else none   -- `return segments.is_empty()`
+  | p :: ps, ss, i, opts =>
     match p with
-    | .unit => matchSegs ps (seg :: rest) (i + 1) opts
-    | .param _ => matchSegs ps rest (i + 1) opts
-    | .optional m =>
-      if m = seg then matchSegs ps rest (i + 1) (opts ++ [i])
-      else matchSegs ps (seg :: rest) (i + 1) opts
+    | .unit => matchSegs ps ss (i + 1) opts
     | .static m =>
-      if m.isEmpty then matchSegs ps (seg :: rest) (i + 1) opts
-      else if m = seg then matchSegs ps rest (i + 1) opts
-      else none
-    | .splat _ => some opts
+      if m.isEmpty then matchSegs ps ss (i + 1) opts
+      else match ss with
+        | seg :: rest => if m = seg then matchSegs ps rest (i + 1) opts else none
+        | [] => none
+    | .splat _ => some opts                          -- takes whatever is left, even nothing
+    | .optional _ =>
+      match ss with
+      | _ :: rest =>
+        -- the param takes the next segment if the rest still matches that way, else it is absent
+        match matchSegs ps rest (i + 1) (opts ++ [i]) with
+        | some o => some o
+        | none => matchSegs ps ss (i + 1) opts
+      | [] => matchSegs ps ss (i + 1) opts
+    | .param _ =>
+      match ss with
+      | _ :: rest => matchSegs ps rest (i + 1) opts
+      | [] => none
 
 /-- `construct_path_segments(segments, new_segments, path_builder, optionals)` -/
 def construct : Row → List Str → Nat → List Nat → PB → Outcome PB
